@@ -1,3 +1,229 @@
-/-! # C19 — property theorems (to be written) -/
+import BddVerif.Lemmas.Sched
+import BddVerif.Gen.SharedState
+/-!
+# C19 — operations are pure, deterministic and safe to run concurrently on shared Bdds (PARTIAL by nature)
+
+Two kinds of statements.
+
+**(A) About the scheduling model** (`Model/Sched.lean`): threads run operation sequences over a shared
+pool; a step of thread `i` reads the pool and thread `i`'s locals and writes only thread `i`'s locals
+and a *hidden shared state* `S` (which stands for any cache / `static mut` / `thread_local!` /
+`RandomState` seed / interior mutability an implementation could hide behind the API).
+MODELLING ASSUMPTION, explicit as the hypothesis `Transparent sem f`: the result of every operation is
+a function `f` of the operation and of its operands' values, whatever the hidden state. Under it, every
+complete interleaving gives every thread exactly the results of running its program alone
+(`sched_irrelevant`), the pool is never changed (`pool_unchanged`), any two runs — different
+interleavings, different initial hidden states, even different transparent implementations of the same
+`f` — give identical results (`deterministic`), every intermediate state is a prefix of the sequential
+results (`prefix_at_any_time`), and steps of different threads commute (`steps_commute`).
+`hidden_state_matters` shows that the hypothesis is not decoration: with a hidden counter the model
+does distinguish two interleavings.
+
+That each library operation IS such a function is what the models of the other properties establish
+(they are Lean functions of the operands' node arrays); it is tied to the Rust code by (B), by the
+`Send + Sync` instantiations of the harness (a type losing them stops the harness from building) and
+by the correspondence under real threads (`harness/src/bin/c19.rs`, `Drive/C19.lean`).
+
+**(B) About the regenerated shared-state inventory** (`Gen/SharedState.lean`, rewritten from the
+current sources on every run): every entry is in the justified table `allowed`
+(`shared_state_inventory_allowed`) and there is no place where a randomly seeded hash container is
+turned into an unsorted sequence (`no_unsorted_hash_iteration`). A new `static`, `thread_local!`,
+lazy static, `Cell`/`RefCell`/`Mutex`/atomic, `unsafe impl`, `unsafe { … }` block (or a change inside
+one of the three known blocks), raw pointer, FFI item, ambient input (environment, clock, thread id,
+`thread_rng`, process id, file system), or unsorted hash iteration breaks these two `decide` proofs.
+
+NOT covered (why the property is labelled partial): data races and memory-model effects of real
+hardware. Rust's type system excludes them for safe code; the model has no memory and cannot exhibit
+them.
+-/
 namespace B.Props.C19
+open B.Sched
+
+variable {Op Val S S' : Type}
+
+/-! ## (A) the scheduling model -/
+
+/-- **Every complete interleaving gives every thread the results of its sequential run.** -/
+theorem sched_irrelevant (sem : Sem Op Val S) (f : Op → List Val → Val) (ht : Transparent sem f)
+    (sched : Schedule) (progs : Nat → Prog Op) (pool : List Val) (s0 : S)
+    (hc : Complete sched progs) :
+    results (run sem sched progs pool s0) = fun i => runSeq f (progs i) pool := by
+  funext i
+  have hinv := inv_runFrom sem f ht progs pool sched _ (inv_init f progs pool s0)
+  have hlen := runFrom_todo_length sem sched i (init progs pool s0)
+  have h0 : ((runFrom sem (init progs pool s0) sched).threads i).todo = [] := by
+    apply List.eq_nil_of_length_eq_zero
+    rw [hlen]
+    have := hc i
+    simp only [init]
+    omega
+  have := hinv.thread i
+  rw [h0] at this
+  simpa [results, run, seqGo] using this
+
+/-- **No schedule, complete or not, transparent semantics or not, changes the shared pool.** -/
+theorem pool_unchanged (sem : Sem Op Val S) (sched : Schedule) (progs : Nat → Prog Op) (pool : List Val) (s0 : S) :
+    (run sem sched progs pool s0).pool = pool := by
+  simp [run, runFrom_pool, init]
+
+/-- **Determinism**: two runs of the same programs on the same pool — under different complete
+    interleavings, from different hidden states (e.g. `RandomState` seeds, cache contents), even with
+    two different implementations that are transparent for the same function — give identical results. -/
+theorem deterministic (sem : Sem Op Val S) (sem' : Sem Op Val S') (f : Op → List Val → Val)
+    (ht : Transparent sem f) (ht' : Transparent sem' f)
+    (sched sched' : Schedule) (progs : Nat → Prog Op) (pool : List Val) (s0 : S) (s0' : S')
+    (hc : Complete sched progs) (hc' : Complete sched' progs) :
+    results (run sem sched progs pool s0) = results (run sem' sched' progs pool s0') := by
+  rw [sched_irrelevant sem f ht sched progs pool s0 hc, sched_irrelevant sem' f ht' sched' progs pool s0' hc']
+
+/-- the special case of plain functions (no hidden state at all) -/
+theorem sched_irrelevant_pure (f : Op → List Val → Val) (sched : Schedule) (progs : Nat → Prog Op)
+    (pool : List Val) (hc : Complete sched progs) :
+    results (run (Sem.pure f) sched progs pool ()) = fun i => runSeq f (progs i) pool :=
+  sched_irrelevant (Sem.pure f) f (fun _ _ _ => rfl) sched progs pool () hc
+
+/-- **At any time** (any schedule, also incomplete ones) every thread holds a prefix of its sequential
+    results, of the length of the turns it used. -/
+theorem prefix_at_any_time (sem : Sem Op Val S) (f : Op → List Val → Val) (ht : Transparent sem f)
+    (sched : Schedule) (progs : Nat → Prog Op) (pool : List Val) (s0 : S) (i : Nat) :
+    results (run sem sched progs pool s0) i
+      = (runSeq f (progs i) pool).take (min (sched.count i) (progs i).length) := by
+  have hinv := inv_runFrom sem f ht progs pool sched _ (inv_init f progs pool s0)
+  have hlen := runFrom_todo_length sem sched i (init progs pool s0)
+  have hpre := seqGo_prefix f pool ((runFrom sem (init progs pool s0) sched).threads i).todo
+    ((runFrom sem (init progs pool s0) sched).threads i).locals
+  have htot := seqGo_length f pool ((runFrom sem (init progs pool s0) sched).threads i).todo
+    ((runFrom sem (init progs pool s0) sched).threads i).locals
+  rw [hinv.thread i] at hpre htot
+  have hinit : ((init progs pool s0 : World Op Val S).threads i).todo = progs i := rfl
+  rw [runSeq_length, hlen, hinit] at htot
+  have hl : ((runFrom sem (init progs pool s0) sched).threads i).locals.length
+      = min (sched.count i) (progs i).length := by omega
+  have := List.prefix_iff_eq_take.mp hpre
+  rw [hl] at this
+  simpa [results, run] using this
+
+/-- **Steps of different threads commute** (on everything observable: pool and all threads' states;
+    the hidden state may differ). -/
+theorem steps_commute (sem : Sem Op Val S) (f : Op → List Val → Val) (ht : Transparent sem f)
+    (w : World Op Val S) (i j : Nat) (hij : i ≠ j) :
+    (step sem (step sem w i) j).pool = (step sem (step sem w j) i).pool ∧
+    (step sem (step sem w i) j).threads = (step sem (step sem w j) i).threads := by
+  refine ⟨by simp [step_pool], ?_⟩
+  have hji : j ≠ i := fun h => hij h.symm
+  -- the thread that steps second sees its own state and the pool unchanged by the first step
+  have key : ∀ (a b : Nat), a ≠ b → ∀ w : World Op Val S,
+      (step sem (step sem w a) b).threads b = (step sem w b).threads b := by
+    intro a b hab w
+    have hb : (step sem w a).threads b = w.threads b := step_other sem w a b (fun h => hab h.symm)
+    cases htodo : (w.threads b).todo with
+    | nil =>
+      rw [step_done sem w b htodo, step_done sem (step sem w a) b (by rw [hb]; exact htodo), hb]
+    | cons ins rest =>
+      rw [step_self sem f ht w b ins rest htodo,
+        step_self sem f ht (step sem w a) b ins rest (by rw [hb]; exact htodo), hb, step_pool]
+  funext k
+  by_cases hki : k = i
+  · subst hki
+    rw [step_other sem _ j k hij, key j k hji w]
+  · by_cases hkj : k = j
+    · subst hkj
+      rw [key i k hij w, step_other sem _ i k hki]
+    · rw [step_other sem _ j k hkj, step_other sem _ i k hki, step_other sem _ i k hki,
+        step_other sem _ j k hkj]
+
+/-! ### the hypothesis is necessary: a hidden counter makes interleavings observable -/
+
+/-- an "operation" that returns a hidden call counter (a stand-in for any shared cache that leaks) -/
+def leaky : Sem Unit Nat Nat := ⟨fun _ _ s => (s, s + 1)⟩
+
+def oneCall : Nat → Prog Unit := fun i => if i < 2 then [⟨(), []⟩] else []
+
+/-- with hidden shared state that reaches a result, two complete interleavings of the same programs
+    differ: the model CAN express the failure that C19 excludes, so `Transparent` is a real hypothesis -/
+theorem hidden_state_matters :
+    results (run leaky [0, 1] oneCall [] 0) 0 ≠ results (run leaky [1, 0] oneCall [] 0) 0 := by
+  decide
+
+theorem leaky_not_transparent : ¬ ∃ f, Transparent leaky f := by
+  intro ⟨f, h⟩
+  have h0 := h () [] 0
+  have h1 := h () [] 1
+  simp [leaky] at h0 h1
+  omega
+
+/-! ### non-vacuity: the hypotheses are met by concrete non-trivial values -/
+
+/-- a toy instance: values are numbers, `true` adds and `false` multiplies the operands -/
+def toyF : Bool → List Nat → Nat := fun o vs => if o then vs.foldl (· + ·) 0 else vs.foldl (· * ·) 1
+
+/-- a semantics with a hidden call counter that never reaches a result (a transparent cache) -/
+def toySem : Sem Bool Nat Nat := ⟨fun o vs s => (toyF o vs, s + 1)⟩
+
+theorem toySem_transparent : Transparent toySem toyF := fun _ _ _ => rfl
+
+def toyProgs : Nat → Prog Bool := fun i =>
+  if i = 0 then [⟨true, [.pool 0, .pool 1]⟩, ⟨false, [.loc 0, .pool 2]⟩]
+  else if i = 1 then [⟨false, [.pool 1, .pool 2]⟩, ⟨true, [.loc 0, .loc 0]⟩, ⟨true, [.loc 7]⟩]
+  else []
+
+theorem toy_complete : Complete [1, 0, 1, 0, 1] toyProgs := by
+  intro i
+  by_cases h0 : i = 0
+  · subst h0; decide
+  · by_cases h1 : i = 1
+    · subst h1; decide
+    · simp [toyProgs, h0, h1]
+
+example : results (run toySem [1, 0, 1, 0, 1] toyProgs [2, 3, 4] 0) 0 = [some 5, some 20] := by decide
+example : results (run toySem [1, 0, 1, 0, 1] toyProgs [2, 3, 4] 0) 1 = [some 12, some 24, none] := by decide
+example : results (run toySem [0, 0, 1, 1, 1] toyProgs [2, 3, 4] 0) 1 = [some 12, some 24, none] := by decide
+example : runSeq toyF (toyProgs 1) [2, 3, 4] = [some 12, some 24, none] := by decide
+example : (run toySem [1, 0, 1, 0, 1] toyProgs [2, 3, 4] 0).hidden = 4 := by decide
+example : results (run toySem [1, 0, 1, 0, 1] toyProgs [2, 3, 4] 0)
+    = fun i => runSeq toyF (toyProgs i) [2, 3, 4] :=
+  sched_irrelevant toySem toyF toySem_transparent _ _ _ _ toy_complete
+
+/-! ## (B) the regenerated shared-state inventory -/
+
+/-- The justified occurrences: (file, kind, text as produced by the translator, reason).
+
+All three are the `unsafe { … }` blocks of `Bdd::substitute`. The callees `set_num_vars` and
+`rename_variables` are `unsafe fn` only in the API sense ("can change the Bdd in a non-semantic way",
+see their `# Safety` sections): their bodies are plain safe Rust (bounds-checked indexing of the
+receiver's own `Vec`, `assert!`s) — the scanner checks that no `unsafe fn` body calls another
+`unsafe fn`, dereferences a raw pointer, or uses an unchecked primitive. Each block mutates a value
+that the function has just created (`self.clone()`, `function.clone()`, the result of
+`binary_op_with_exists`) and that no other thread can reach; `self` and `function` are only read. -/
+def allowed : List (String × String × String × String) := [
+  ("src/_impl_bdd/_impl_util.rs", "unsafe_block",
+   "fn substitute: unsafe { self_copy.set_num_vars(self_copy.num_vars().checked_add(1).unwrap()); self_copy.rename_variables(&permutation); }",
+   "mutates `self_copy`, a fresh local clone of `self`; callees are safe Rust marked unsafe for API reasons; no shared state"),
+  ("src/_impl_bdd/_impl_util.rs", "unsafe_block",
+   "fn substitute: unsafe { function_copy.set_num_vars(function_copy.num_vars().checked_add(1).unwrap()); function_copy.rename_variables(&permutation); }",
+   "mutates `function_copy`, a fresh local clone of `function`; callees are safe Rust marked unsafe for API reasons; no shared state"),
+  ("src/_impl_bdd/_impl_util.rs", "unsafe_block",
+   "fn substitute: unsafe { substituted.rename_variables(&reverse_permutation); substituted.set_num_vars(substituted.num_vars() - 1); }",
+   "mutates `substituted`, the fresh result of `binary_op_with_exists` owned by this call; no shared state")
+]
+
+def allowedKeys : List (String × String × String) := allowed.map fun a => (a.1, a.2.1, a.2.2.1)
+
+set_option maxRecDepth 8192 in
+/-- **Every occurrence of shared state / interior mutability / unsafe code / raw pointers / FFI /
+    ambient input in the current non-test sources is one of the justified ones.** -/
+theorem shared_state_inventory_allowed : ∀ e ∈ Gen.sharedStateInventory, e ∈ allowedKeys := by decide
+
+/-- **No randomly seeded hash container is turned into a sequence that is neither sorted next nor
+    consumed by an order-insensitive sink.** -/
+theorem no_unsorted_hash_iteration : Gen.unsortedHashIteration = [] := by decide
+
+/-- the scanner's own classification of the sites it saw uses nothing but `sorted` and `order_free` -/
+theorem hash_iteration_sites_classified :
+    ∀ e ∈ Gen.hashIterationSites, e.2.2.1 = "sorted" ∨ e.2.2.1 = "order_free" := by decide
+
+/-- nothing but `unsafe { … }` blocks is allowed at all: no static, no thread-local, no interior
+    mutability, no `unsafe impl`, no raw pointer, no FFI, no ambient input -/
+theorem allowed_only_unsafe_blocks : ∀ a ∈ allowed, a.2.1 = "unsafe_block" := by decide
+
 end B.Props.C19
